@@ -85,9 +85,11 @@ def gen_link(rng, d, big_object):
 
     def caller(name, section=".text"):
         nonlocal k
-        s = [f'.section {section},"ax",%progbits' if section != ".text" else ".text", f".globl {name}", f".type {name},%function", f"{name}:"]
-        for _ in range(rng.randrange(2, 6)):
-            t = rng.choice(far_names + [f"near_{name}"])
+        s = [f'.section {section},"ax",%progbits\n.p2align 6' if section != ".text" else ".text", f".globl {name}", f".type {name},%function", f"{name}:"]
+        picks = [rng.choice(far_names + [f"near_{name}"]) for _ in range(rng.randrange(2, 6))]
+        if section != ".text":
+            picks = [far_names[0], far_names[1], far_names[0]] + picks       # the same far target twice, not adjacent
+        for t in picks:
             s += [f".globl site{k}", f"site{k}:", f" {rng.choice(['bl', 'bl', 'b'])} {t}"]
             sites.append(f"site{k}")
             targets.append(t)
@@ -99,8 +101,8 @@ def gen_link(rng, d, big_object):
         return f".text\n .space {nbytes}\n ret\n"           # no symbols: identical pads are assembled once and copied
     plan = []
     plan.append(("c0", caller("c0")))
-    if rng.random() < 0.5:
-        plan.append(("cx", caller("cx", section=".text.hot64")))      # a caller outside the primary text part
+    if rng.random() < 0.7 or not big_object:
+        plan.append(("cx", caller("cx", section=".text.hot64")))      # an over-aligned section: outside the primary text part
     if big_object:
         # block 0 sits at the start; 41 x 3 MiB later the next block is opened by cP (a caller followed by 3 MiB), another
         # 40 x 3 MiB join it, and the 9 MiB object that stretches the span past the range gets the block behind it:
